@@ -111,10 +111,15 @@ pub fn preseal_melmint<C: ContentAddrStore>(state: UnsealedState<C>) -> Unsealed
 
 /// Parses the pool a request names. `PoolKey::from_bytes` accepts the long encoding with the two denominations in either
 /// order (or twice the same), yet such a key still serialises to the name of the canonical pool: only the canonical
-/// spelling, whose left and right sides are the pool's left and right reserves, may name a pool.
+/// spelling, whose left and right sides are the pool's left and right reserves, may name a pool. Nor may a side be the
+/// placeholder `Denom::NewCustom` (the empty name parses to the pair NewCustom/MEL): every transaction declares its own new
+/// token under that placeholder, so such a pool would trade the different tokens of different transactions as one denomination.
 fn request_pool_key(data: &[u8]) -> Option<PoolKey> {
     let pool_key = PoolKey::from_bytes(data)?;
-    (pool_key.left().to_bytes() < pool_key.right().to_bytes()).then_some(pool_key)
+    (pool_key.left().to_bytes() < pool_key.right().to_bytes()
+        && pool_key.left() != Denom::NewCustom
+        && pool_key.right() != Denom::NewCustom)
+        .then_some(pool_key)
 }
 
 fn extract_pool_keys_sorted(transactions: &mut [Transaction]) -> Vec<PoolKey> {
